@@ -71,8 +71,13 @@ func statusModel(exp expectation) string {
 		switch {
 		case exp.BodyClass == "nonjson" || exp.BodyClass == "body-read-fails" || exp.BodyClass == "not-an-object":
 			return "error|400"
+		case (exp.BodyClass == "no-actor" || exp.BodyClass == "empty-actor") && exp.Endpoint == "PostInbox":
+			// an inbox activity that names no actor is incomplete (the
+			// library says so itself when the member is absent): nobody the
+			// block check could be asked about, so no effect either
+			return "error|400"
 		case exp.BodyClass == "no-actor" || exp.BodyClass == "empty-actor" || exp.BodyClass == "idless-actor":
-			return "" // nobody the block check could be asked about: left open
+			return "" // left open
 		case exp.BodyClass == "no-type" || exp.BodyClass == "no-context":
 			return "" // neither "unknown type" nor well-formed: left open
 		case exp.BodyClass == "callback-says-object-required" || exp.BodyClass == "callback-says-target-required":
